@@ -218,15 +218,21 @@ def validate_chunk(ctx, name, rows, sched_by_id, res_by_id, st):
             what = "the resolver returned although not every planned request was prepared and merged exactly once, or it returned an error"
         key = "run:%s:%s" % (r.violated or "nonconformance", evname)
         if st["reports"] < MAX_REPORTS:
-            st["reports"] += 1
             sc = sched_by_id.get(cid, {})
-            ctx.violation(key, "%s; schedule %s of plan %s deps=%s, event #%d %s" % (
-                what, cid, show(sc["tree"]) if sc else "?", sc.get("deps"), line - start, json.dumps(ev)),
-                {"kind": sc.get("kind", "run"), "schedule": sc, "events": allrows[start:end], "result": res_by_id.get(cid),
-                 "failing_event_index": line - start, "tlc": r.violated or "stuck"})
+            if ctx.violation(key, "%s; schedule %s of plan %s deps=%s, event #%d %s" % (
+                    what, cid, show(sc["tree"]) if sc else "?", sc.get("deps"), line - start, json.dumps(ev)),
+                    {"kind": sc.get("kind", "run"), "schedule": sc, "events": allrows[start:end], "result": res_by_id.get(cid),
+                     "failing_event_index": line - start, "tlc": r.violated or "stuck"}):
+                st["reports"] += 1
+            else:
+                st["known"] += 1
         st["rejected"] += 1
         validated += sum(1 for x in allrows[:start] if x["ev"] == "reset")
         rows = allrows[end:]
+    else:
+        left = sum(1 for x in rows if x["ev"] == "reset")
+        if left:
+            ctx.notes.append("trace validation of chunk %s stopped after 8 rejected traces; %d traces were not validated" % (name, left))
     return validated
 
 
@@ -248,8 +254,8 @@ def go_side(ctx, results, scheds, st, baseline=None, hand_built=True):
 
     def report(key, what, r):
         if st["reports"] < MAX_REPORTS:
-            st["reports"] += 1
-            ctx.violation(key, what, {"kind": by_id[r["id"]].get("kind", "run"), "schedule": by_id[r["id"]], "result": r})
+            if ctx.violation(key, what, {"kind": by_id[r["id"]].get("kind", "run"), "schedule": by_id[r["id"]], "result": r}):
+                st["reports"] += 1
 
     for r in results:
         s = by_id[r["id"]]
@@ -294,6 +300,43 @@ def go_side(ctx, results, scheds, st, baseline=None, hand_built=True):
     return unreal
 
 
+def drive_run(ctx, binary, sp, ep, rp, scheds, st):
+    """Run ftexec / ftfed; a crash of the process (a panic in a goroutine of the code under test cannot be recovered by the
+    driver) is attributed to the schedule being executed, reported, and the run continues after it. Returns the results."""
+    prog = sp + ".progress"
+    start = 0
+    crashed = set()
+    for crash in range(8):
+        args = ["-in", sp, "-out", ep, "-res", rp, "-progress", prog]
+        if start:
+            args += ["-from", str(start)]
+        p = ctx.run_bin(binary, args, timeout=6000, check=False)
+        if p.returncode == 0:
+            break
+        if p.returncode == 3 or not os.path.exists(prog):
+            raise lib.Inconclusive("harness %s exited %d: %s" % (os.path.basename(binary), p.returncode, p.stderr[-500:]))
+        with open(prog) as f:
+            txt = f.read().split()
+        if not txt:
+            raise lib.Inconclusive("harness %s exited %d before its first schedule" % (os.path.basename(binary), p.returncode))
+        line = int(txt[0])
+        sc = scheds[line - 1]
+        crashed.add(sc["id"])
+        reason = next((x for x in p.stderr.splitlines() if x.startswith("panic:") or x.startswith("fatal error")), "exit %d" % p.returncode)
+        st["rejected"] += 1
+        if st["reports"] < MAX_REPORTS:
+            if ctx.violation("run:crash", "the process crashed (%s) while the real resolver executed schedule %s steps %s of plan %s deps=%s" % (
+                    reason, sc["id"], [(x["f"], x["a"]) for x in sc["steps"]], show(sc["tree"]), sc["deps"]),
+                    {"kind": sc.get("kind", "run"), "schedule": sc, "crash": reason, "stderr": p.stderr[-3000:]}):
+                st["reports"] += 1
+        start = line
+    else:
+        ctx.notes.append("%s: more than 8 crashes, the remaining schedules were not run" % os.path.basename(binary))
+    results = lib.read_ndjson(rp) if os.path.exists(rp) else []
+    done = {r["id"] for r in results}
+    return results, [s for s in scheds if s["id"] in done], crashed
+
+
 def gen_schedules(ctx, plans, probes, tag, timeout=1800):
     """TLC enumerates every schedule of every plan of the list (plans: dicts with tree, deps)."""
     tp = ctx.path("plans-%s.ndjson" % tag)
@@ -318,7 +361,7 @@ def replay(ctx, bins):
     with open(ctx.replay_in) as f:
         rep = json.load(f)
     case = rep["case"]
-    st = {"reports": 0, "rejected": 0, "bad_obs": set()}
+    st = {"reports": 0, "rejected": 0, "known": 0, "bad_obs": set()}
     cov = {"unreal": 0, "validated": 0, "replayed": 0, "distinct": set(), "distinct_all": set(), "samples": []}
     if case.get("kind") == "post":
         modes = case.get("modes") or mode_name(case["mode"])
@@ -327,21 +370,21 @@ def replay(ctx, bins):
         s = case["schedule"]
         sp, ep, rp = ctx.path("sched-r.ndjson"), ctx.path("events-r.ndjson"), ctx.path("results-r.ndjson")
         lib.write_ndjson(sp, [s])
-        ctx.run_bin(bins["ftfed"], ["-in", sp, "-out", ep, "-res", rp], timeout=600)
-        results = lib.read_ndjson(rp)
-        go_side(ctx, results, [s], st, baseline=None, hand_built=False)
-        validate_runs(ctx, "replay", ep, [s], results, st, 1)
+        results, done, _ = drive_run(ctx, bins["ftfed"], sp, ep, rp, [s], st)
+        if results:
+            go_side(ctx, results, done, st, baseline=None, hand_built=False)
+            validate_runs(ctx, "replay", ep, done, results, st, 1)
     else:
         # one schedule, or several schedules of one plan (order dependence needs two runs)
         ss = case.get("schedules") or [case["schedule"]]
         sp, ep, rp = ctx.path("sched-r.ndjson"), ctx.path("events-r.ndjson"), ctx.path("results-r.ndjson")
         lib.write_ndjson(sp, ss)
-        ctx.run_bin(bins["ftexec"], ["-in", sp, "-out", ep, "-res", rp], timeout=600)
-        results = lib.read_ndjson(rp)
+        results, done, _ = drive_run(ctx, bins["ftexec"], sp, ep, rp, ss, st)
         for r in results:
             ctx.log("replay %s -> %s %s" % (r["id"], r["raw"], r["err"]))
-        go_side(ctx, results, ss, st)
-        validate_runs(ctx, "replay", ep, ss, results, st, 1)
+        if results:
+            go_side(ctx, results, done, st)
+            validate_runs(ctx, "replay", ep, done, results, st, 1)
     ctx.coverage.update({"traces_validated_against_impl": 1, "evaluations": 1, "distinct_nontrivial": 1, "exhaustive": False,
                          "rule": "replay of one recorded counterexample", "samples": [case]})
 
@@ -365,7 +408,7 @@ def run(ctx):
     bins = {b: ctx.build(b) for b in ("postprocess", "ftexec", "ftfed")}
     if ctx.replay_in:
         return replay(ctx, bins)   # (own findings fragment already loaded above)
-    st = {"reports": 0, "rejected": 0, "bad_obs": set()}
+    st = {"reports": 0, "rejected": 0, "known": 0, "bad_obs": set()}
     # ---- 1. model checking ----------------------------------------------------------------------
     ctx.tlc_must_pass(SPEC, "MC_FT", "MC_FT_4.cfg", workers=8, timeout=900, tag="mc-trees<=4-maxdeps")
     if quick:
@@ -548,10 +591,11 @@ def run(ctx):
             continue
         sp, ep, rp = ctx.path("sched-%s.ndjson" % name), ctx.path("events-%s.ndjson" % name), ctx.path("results-%s.ndjson" % name)
         lib.write_ndjson(sp, scheds)
-        ctx.run_bin(binary, ["-in", sp, "-out", ep, "-res", rp], timeout=6000)
-        results = lib.read_ndjson(rp)
-        if len(results) != len(scheds):
+        results, scheds, crashed = drive_run(ctx, binary, sp, ep, rp, scheds, st)
+        if not crashed and len(results) != len(scheds):
             raise lib.Inconclusive("%s produced %d results for %d schedules" % (os.path.basename(binary), len(results), len(scheds)))
+        if not results:
+            continue
         cov["unreal"] += go_side(ctx, results, scheds, st, baseline=baseline if name == "fed" else None, hand_built=(name == "hand"))
         events += lib.read_ndjson(ep)
         results_all += results
@@ -569,8 +613,8 @@ def run(ctx):
 
     if cov["unreal"]:
         ctx.notes.append("%d schedules contained a step the real code could not take as scheduled (drained, validated anyway)" % cov["unreal"])
-    if st["rejected"] and not ctx.violations and not ctx.known_hits:
-        raise lib.Inconclusive("observations were rejected but nothing was reported")
+    if st["rejected"] > st["known"] and not ctx.violations:
+        raise lib.Inconclusive("observations were rejected by TLC but no violation was reported")
     ctx.coverage.update({
         "traces_validated_against_impl": obs_ok + cov["validated"],
         "evaluations": obs_total + cov["replayed"],
